@@ -266,6 +266,7 @@ class Stacker(Transformer):
             X = X.rename({sample_name: self.dims_mapping[sample_name][0]})
 
         ds: DataSet = X.to_unstacked_dataset(feature_name, "variable")
+        ds = self._restore_squeezed_dims(ds, X)
         # Only unstack what the stacker has stacked; a MultiIndex of the user's own
         # (e.g. in user-provided scores) must stay as it is
         stacked_dims = [
@@ -277,9 +278,17 @@ class Stacker(Transformer):
         ds = self._reorder_dims(ds)
         return ds
 
+    def _restore_squeezed_dims(self, ds: DataSet, X: DataArray) -> DataSet:
+        """`to_unstacked_dataset` squeezes dimensions of length one (e.g. a single mode or sample)."""
+        for dim in X.dims:
+            if dim != self.feature_name and dim not in ds.dims:
+                ds = ds.expand_dims({dim: X.coords[dim].values})
+        return ds
+
     def _unstack_to_dataset_components(self, data: DataArray) -> DataSet:
         feature_name = self.feature_name
-        ds: DataSet = data.to_unstacked_dataset(feature_name, "variable").unstack()
+        ds: DataSet = data.to_unstacked_dataset(feature_name, "variable")
+        ds = self._restore_squeezed_dims(ds, data).unstack()
         ds = self._reorder_dims(ds)
         return ds
 
